@@ -35,7 +35,7 @@ def run(ctx):
         if ctx.left() < 25 or done >= n:
             break
         nsmp = rng.randint(1, 4)
-        case = fp.gen_case(rng, i, n_samples=nsmp)
+        case = fp.gen_case(rng, i, n_samples=nsmp, p_stateful=0.2 if i % 3 == 1 else 0.0)   # every third case may hold recurrent cells with variable state
         try:
             q = fp.make_quantizer(case)
         except Exception:  # noqa: BLE001
